@@ -269,7 +269,7 @@ async fn pump_output_stream(
 
         let (preview, _truncated, _used) =
             super::logs::truncate_utf8(chunk, max_preview_bytes.min(super::OUTPUT_EVENT_MAX_BYTES));
-        if preview.is_empty() {
+        if preview.is_empty() && artifacts.is_none() {
             continue;
         }
 
